@@ -133,6 +133,11 @@ pub fn in_domain(text: &str) -> bool {
     up != "INTERNALS" && up != "STATS"
 }
 
+thread_local! {
+    /// true while code under test runs inside catch_unwind (its panics are data, not harness failures)
+    pub static IN_SUT: std::cell::Cell<bool> = std::cell::Cell::new(false);
+}
+
 pub struct Sess {
     pub interp: Interpreter,
     pub dead: bool,
@@ -168,7 +173,13 @@ impl Sess {
         let k = call["k"].as_str().unwrap_or("").to_string();
         let text = text_of(&call["text"]);
         let mut dom = true;
+        // C09: work per call is measured (token-cursor reads), against the length of the line executed
+        let before = verif::snapshot(&self.interp);
+        // (the longest stored line: a call may finish one line and look at the next)
+        let line_tokens = self.interp.verif_program_lines().iter().map(|(_, t)| t.len()).max().unwrap_or(0).max(before.immediate_line.len());
+        let has_functions = !before.functions.is_empty();
         let interp = &mut self.interp;
+        IN_SUT.with(|f| f.set(true));
         let result = catch_unwind(AssertUnwindSafe(|| match k.as_str() {
             "submit" => interp.start_evaluating(&text).map_err(|e| (verif::error_info(&e), e)),
             "continue" => interp.continue_evaluating().map_err(|e| (verif::error_info(&e), e)),
@@ -191,6 +202,7 @@ impl Sess {
             }
             _ => Ok(()),
         }));
+        IN_SUT.with(|f| f.set(false));
         if k == "submit" {
             dom = in_domain(&text);
             self.last_line = Some(text.clone());
@@ -217,16 +229,18 @@ impl Sess {
                         // C01: every error can be rendered as source line + caret
                         let last = self.last_line.clone();
                         let interp_ref = &self.interp;
+                        IN_SUT.with(|f| f.set(true));
                         match catch_unwind(AssertUnwindSafe(|| err.get_line_with_pointer_caret(interp_ref, last))) {
                             Ok(lines) => caret = lines,
                             Err(_) => caret_ok = false,
                         }
+                        IN_SUT.with(|f| f.set(false));
                         let (hl, line, tok) = match &info.location {
                             Some(l) => (true, line_key(&l.line), l.token_index),
                             None => (false, json!([]), 0),
                         };
                         json!({"ok": false, "kind": info.kind, "hl": hl, "line": line, "tok": tok,
-                               "tokpos": info.tokenization_pos.map(|(a, b)| json!([a, b])), "expected": info.expected})
+                               "tokpos": info.tokenization_pos.map(|(a, b)| json!([a, b.unwrap_or(a)])), "expected": info.expected})
                     }
                 };
                 let outs: Vec<J> = self.interp.take_output().iter().map(out_json).collect();
@@ -242,8 +256,13 @@ impl Sess {
                         }
                     }
                 }
+                // lines this call may have walked over: where it started, where it ended, or (submit) the new immediate line
+                let end_tokens = 0;
+                let submitted_tokens = if k == "submit" { verif::tokenize(&text, 0).0.len() } else { 0 };
                 json!({"c": call, "dom": dom, "panic": false, "res": res, "out": outs, "snap": snap_json(&snap),
-                       "edit": edit, "caret_ok": caret_ok, "caret": caret})
+                       "edit": edit, "caret_ok": caret_ok, "caret": caret,
+                       "work": {"reads": snap.token_reads.saturating_sub(before.token_reads), "line_tokens": line_tokens.max(end_tokens).max(submitted_tokens),
+                                "functions": has_functions || !snap.functions.is_empty()}})
             }
         }
     }
